@@ -139,3 +139,181 @@ def corpus_files():
                 if p.is_file() and (p.name.endswith(".oct.md") or p.suffix == ".octave"):
                     seen.append(p)
     return seen
+
+
+# ---------------------------------------------------------------------------------------------
+# AST <-> JSON (canonical form shared with the Lean driver)
+# ---------------------------------------------------------------------------------------------
+
+def value_to_json(v):
+    from octave_mcp.core.ast_nodes import Absent, HolographicValue, InlineMap, ListValue, LiteralZoneValue
+    if v is None:
+        return None
+    if isinstance(v, bool):
+        return v
+    if isinstance(v, int):
+        return {"i": str(v)}
+    if isinstance(v, float):
+        return {"f": repr(v)}
+    if isinstance(v, str):
+        return {"s": v}
+    if isinstance(v, Absent):
+        return {"absent": True}
+    if isinstance(v, ListValue):
+        return {"l": [value_to_json(x) for x in v.items]}
+    if isinstance(v, InlineMap):
+        return {"m": [[k, value_to_json(x)] for k, x in v.pairs.items()]}
+    if isinstance(v, HolographicValue):
+        return {"h": v.raw_pattern}
+    if isinstance(v, LiteralZoneValue):
+        return {"z": {"c": v.content, "t": v.info_tag, "m": v.fence_marker}}
+    if isinstance(v, dict):
+        return {"pydict": [[k, value_to_json(x)] for k, x in v.items()]}
+    return {"obj": repr(v)}
+
+
+def node_to_json(n):
+    from octave_mcp.core.ast_nodes import Assignment, Block, Comment, Section
+    if isinstance(n, Assignment):
+        return {"a": {"k": n.key, "v": value_to_json(n.value), "ln": n.line, "col": n.column,
+                      "lead": list(getattr(n, "leading_comments", []) or []), "trail": getattr(n, "trailing_comment", None)}}
+    if isinstance(n, Block):
+        return {"b": {"k": n.key, "ch": [node_to_json(c) for c in n.children], "ln": n.line, "col": n.column,
+                      "lead": list(getattr(n, "leading_comments", []) or []), "target": getattr(n, "target", None)}}
+    if isinstance(n, Section):
+        return {"sec": {"id": n.section_id, "k": n.key, "ann": n.annotation, "ch": [node_to_json(c) for c in n.children],
+                        "ln": n.line, "col": n.column, "lead": list(getattr(n, "leading_comments", []) or [])}}
+    if isinstance(n, Comment):
+        return {"c": n.text}
+    return {"obj": repr(n)}
+
+
+def meta_to_json(meta: dict):
+    out = []
+    for k, v in meta.items():
+        if isinstance(v, dict):
+            out.append([k, {"d": [[k2, value_to_json(v2)] for k2, v2 in v.items()]}])
+        else:
+            out.append([k, {"v": value_to_json(v)}])
+    return out
+
+
+def doc_to_json(doc):
+    return {"name": doc.name, "meta": meta_to_json(doc.meta), "sep": bool(doc.has_separator),
+            "sections": [node_to_json(s) for s in doc.sections], "gv": doc.grammar_version,
+            "fm": doc.raw_frontmatter, "trailing": list(getattr(doc, "trailing_comments", []) or [])}
+
+
+def json_to_value(j):
+    from octave_mcp.core.ast_nodes import Absent, HolographicValue, InlineMap, ListValue, LiteralZoneValue
+    if j is None or isinstance(j, bool):
+        return j
+    if "s" in j:
+        return j["s"]
+    if "i" in j:
+        return int(j["i"])
+    if "f" in j:
+        return float(j["f"])
+    if "l" in j:
+        return ListValue(items=[json_to_value(x) for x in j["l"]])
+    if "m" in j:
+        return InlineMap(pairs={k: json_to_value(v) for k, v in j["m"]})
+    if "h" in j:
+        return HolographicValue(example=None, constraints=None, target=None, raw_pattern=j["h"])
+    if "z" in j:
+        return LiteralZoneValue(content=j["z"]["c"], info_tag=j["z"]["t"], fence_marker=j["z"]["m"])
+    return Absent()
+
+
+def json_to_node(j):
+    from octave_mcp.core.ast_nodes import Assignment, Block, Comment, Section
+    if "a" in j:
+        a = j["a"]
+        return Assignment(key=a["k"], value=json_to_value(a["v"]), line=a.get("ln", 0), column=a.get("col", 0),
+                          leading_comments=list(a.get("lead", [])), trailing_comment=a.get("trail"))
+    if "b" in j:
+        b = j["b"]
+        return Block(key=b["k"], children=[json_to_node(c) for c in b["ch"]], line=b.get("ln", 0), column=b.get("col", 0),
+                     leading_comments=list(b.get("lead", [])), target=b.get("target"))
+    if "sec" in j:
+        s = j["sec"]
+        return Section(section_id=s["id"], key=s["k"], annotation=s.get("ann"), children=[json_to_node(c) for c in s["ch"]],
+                       line=s.get("ln", 0), column=s.get("col", 0), leading_comments=list(s.get("lead", [])))
+    return Comment(text=j["c"])
+
+
+def json_to_doc(j):
+    from octave_mcp.core.ast_nodes import Document
+    d = Document()
+    d.name = j.get("name", "INFERRED")
+    meta = {}
+    for k, mv in j.get("meta", []):
+        meta[k] = json_to_value(mv["v"]) if "v" in mv else {k2: json_to_value(v2) for k2, v2 in mv["d"]}
+    d.meta = meta
+    d.has_separator = bool(j.get("sep", False))
+    d.sections = [json_to_node(s) for s in j.get("sections", [])]
+    d.grammar_version = j.get("gv")
+    d.raw_frontmatter = j.get("fm")
+    d.trailing_comments = list(j.get("trailing", []))
+    return d
+
+
+def canon_warning(w: dict):
+    st = w.get("subtype")
+    if st == "duplicate_key":
+        return ["duplicate_key", w["key"], w["first_line"], w["duplicate_line"], list(w["all_lines"])]
+    if st in ("bare_flow", "constraint_outside_brackets", "chained_tension", "unclosed_list"):
+        return [st, w["line"], w["column"]]
+    if st in ("pattern_autoquote", "constructor_misuse"):
+        return [st, w["key"], w["value"], w["line"], w["column"]]
+    if st == "bare_line_dropped":
+        return [st, w["original"], w["line"], w["column"]]
+    if st == "multi_word_coalesce":
+        return [st, list(w["original"]), w["result"], w.get("context", ""), w["line"], w["column"]]
+    if st == "source_compile_value":
+        return [st, w["original"], w["line"], w["column"]]
+    if st == "deep_nesting":
+        return [st, w["depth"], w["threshold"], w["line"], w["column"]]
+    if st == "nested_inline_map":
+        return [st, w["key"], w["line"], w["column"]]
+    return ["?", repr(sorted((k, repr(v)) for k, v in w.items()))]
+
+
+def py_parse(s: str):
+    from octave_mcp.core.parser import parse
+    try:
+        return {"doc": doc_to_json(parse(s))}
+    except BaseException as e:  # noqa: BLE001
+        return {"err": canon_exc(e)}
+
+
+def py_parse_warn(s: str):
+    from octave_mcp.core.parser import parse_with_warnings
+    try:
+        doc, ws = parse_with_warnings(s)
+    except BaseException as e:  # noqa: BLE001
+        return {"err": canon_exc(e)}
+    reps = [canon_repair(w) for w in ws if w.get("type") in ("normalization", "repair_candidate") or (w.get("type") == "spec_violation" and w.get("subtype") in ("wrong_case", "boundary_missing"))]
+    warns = [canon_warning(w) for w in ws if not (w.get("type") in ("normalization", "repair_candidate") or (w.get("type") == "spec_violation" and w.get("subtype") in ("wrong_case", "boundary_missing")))]
+    return {"doc": doc_to_json(doc), "repairs": reps, "warnings": warns}
+
+
+def py_parse_meta_only(s: str):
+    from octave_mcp.core.parser import parse_meta_only
+    try:
+        return {"meta": meta_to_json(parse_meta_only(s))}
+    except BaseException as e:  # noqa: BLE001
+        return {"err": canon_exc(e)}
+
+
+def py_emit(docj: dict):
+    from octave_mcp.core.emitter import emit
+    try:
+        return {"text": emit(json_to_doc(docj))}
+    except BaseException as e:  # noqa: BLE001
+        return {"err": [type(e).__name__]}
+
+
+def model_unsupported(rep: dict) -> bool:
+    e = rep.get("err")
+    return bool(e) and e[0] in ("MODEL_UNSUPPORTED", "MODEL_OUT_OF_FUEL")
